@@ -94,7 +94,10 @@ def harnesses(tier):
                               timeout=900, mem_gb=12, mod="system::r#virtual::io::verif_c14_io", cover_group="c14_wfull",
                               # the write loop makes at most 3 rounds (write, write / block, done); unwound 14 times with the byte
                               # loops of VecDeque::extend inside, symbolic execution alone took > 15 min
-                              cbmc_unwind=13, loop_bounds=[(r"function system::r#virtual::io::OpenFileDescription::poll_write_full", 4)]))
+                              cbmc_unwind=13, loop_bounds=[(r"function system::r#virtual::io::OpenFileDescription::poll_write_full", 4)],
+                              # replay inputs in kani::any() order: data (12 x u8), readers (usize), nonblocking (bool), w0 (usize), content (l x u8)
+                              native_cases=[[(0x61 + i, 1) for i in range(12)] + [(rd, 8), (nb, 1), (w0, 8)] + [(0x41 + i, 1) for i in range(l)]
+                                            for rd in (0, 1) for nb in (0, 1) for w0 in range(0, n + 1)]))
             continue
         fn = "yash_env::system::r#virtual::FileBody::poll_" + step.rstrip("w")
         hs.append(Harness(nm, "pipe holding %d of %d bytes, %s request of %d bytes (PIPE_BUF scaled to %d); byte values, reader and "
